@@ -90,6 +90,16 @@ func main() {
 				fmt.Println("  ", n)
 			}
 		}
+	case "implicit":
+		w, err := loadWorld(repo)
+		if err != nil {
+			fmt.Fprintln(os.Stderr, "govc:", err)
+			os.Exit(2)
+		}
+		for _, n := range w.implicit {
+			fn := w.lookupFunc(n)
+			fmt.Printf("%s\t%s\n", n, filepath.Base(w.fset.Position(fn.Pos()).Filename))
+		}
 	case "inlinable":
 		w, err := loadWorld(repo)
 		if err != nil {
@@ -182,13 +192,18 @@ func runCheck(repo, prop, tier string, keep bool, only string, noEvidence bool) 
 	// functions and lemmas that belong to the property
 	var results []*FuncResult
 	var missing []string
+	var skipped []string
 	for _, name := range w.contracts.Order {
 		fc := w.contracts.Funcs[name]
 		if !clauseInvolves(fc, prop) || fc.Trusted {
 			continue
 		}
-		if fc.Inline && len(fc.Requires)+len(fc.Ensures)+len(fc.Claims) == 0 {
-			continue // verified where it is inlined
+		if fc.Skip != "" {
+			skipped = append(skipped, name+": "+fc.Skip)
+			continue
+		}
+		if fc.Inline && !fc.ASTParams && len(fc.Requires)+len(fc.Ensures)+len(fc.Claims) == 0 {
+			continue // hand-marked inline helper: verified where it is inlined
 		}
 		if only != "" && !strings.Contains(name, only) {
 			continue
@@ -326,6 +341,12 @@ func runCheck(repo, prop, tier string, keep bool, only string, noEvidence bool) 
 	usedLib := map[string]bool{}
 	usedCtr := map[string]bool{}
 	var assumed []string
+	for _, sk := range skipped {
+		assumed = append(assumed, "function deliberately not under contract (callers treat it as unknown code bounded by its computed write set; nothing is proved about its body): "+sk)
+	}
+	for _, n := range w.implicit {
+		assumed = append(assumed, "function without a written contract: verified against the default sweep contract generated on this run: "+n)
+	}
 	exit := 0
 	os.MkdirAll(filepath.Join(verifDir, "replay"), 0o755)
 	for _, name := range missing {
